@@ -394,7 +394,6 @@ theorem mainIter_acc {strict : Bool} {s : State} {g : G} (m : Option Msg) (h : R
   unfold mainIter
   split
   · exact onNotify_acc _ _ h
-  · exact onNotify_acc _ _ h
   · exact onNotification_acc h
   · exact dflt
 
